@@ -21,7 +21,7 @@ META = {
         'Runtime oracle: the printed trace (tags, ERR, ERL inside handlers, final message and line) of each generated '
         'program equals that of an independent model: trap -> handler line with ERR/ERL, RESUME re-executes the failing '
         'statement (not its line), RESUME NEXT continues after it (also inside THEN/ELSE branches and from subroutines), '
-        'RESUME n, an error inside a handler stops with that message, RESUME outside a handler gives error 20, no handler '
+        'RESUME n, a fault inside a DEF FN body counts as a fault of the CALLING statement (ERL, RESUME, RESUME NEXT), an error inside a handler stops with that message, RESUME outside a handler gives error 20, no handler '
         '-> message naming the line, direct-mode errors give ERL 65535 and a message without line. ERROR n for all n in '
         '1..255 is enumerated both untrapped (message table) and trapped (ERR value) in the directed core.'),
     'level_note': (
@@ -29,7 +29,7 @@ META = {
         'vf/gen/c19_progs.py). Not pinned by the statement, hence not generated: ERR/ERL outside a handler or after RESUME; '
         'division by zero without an armed trap (soft-handled: message and continue) - 1/0, 7\\0, 7 MOD 0 are generated only '
         'where a trap is armed, else the program is discarded; RESUME outside a handler while a trap is armed; ON ERROR '
-        'inside a handler; falling off the program end inside a handler (No RESUME); faults in IF conditions and in '
+        'inside a handler; falling off the program end inside a handler (No RESUME); soft arithmetic errors in a DEF FN body without an armed trap; faults in IF conditions and in '
         'IF..THEN line-number jumps (what "the next statement" is there); ERROR 0 / ERROR 256.'),
     'rule': ('case = one generated program (text + direct line); distinct by text; non-trivial = at least one error was '
              'raised in the reference run (trapped or fatal) and the program was not discarded as unpinned'),
@@ -42,7 +42,8 @@ META = {
         'ref_fatal', 'ref_fatal-in-handler', 'ref_onerror:off', 'gen_direct_mode', 'gen_real_fault',
         'gen_fault_in_if_branch', 'gen_gosub_to_faulting_sub', 'gen_fault_in_loop', 'gen_float_div_zero_trapped',
         'direct_mode_handler_entered', 'error_table_codes', 'directed_cases',
-        'ended_by_defined_error_code', 'ended_by_undefined_error_code', 'budget_exhausted']},
+        'ended_by_defined_error_code', 'ended_by_undefined_error_code', 'budget_exhausted',
+        'ref_fn:body-raises', 'gen_fault_in_def_fn_body']},
     'timeout': {'quick': 600, 'thorough': 7200},
 }
 
@@ -126,6 +127,23 @@ DIRECTED = [
     ('fault:return-without-gosub-trapped', ['10 ON ERROR GOTO 100', '20 PRINT "a":RETURN:PRINT "b"', '30 END', H + 'RESUME NEXT'], None,
      b'a\r\nh 3  20 \r\nb\r\n'),
     ('fault:untrapped-real-fault', ['10 PRINT "a"', '20 Q%=B%(11)'], None, b'a\r\nSubscript out of range in 20' + E),
+    ('def-fn:body-raises-is-an-error-of-the-calling-statement',
+     ['10 DEF FNA(X)=SQR(-4)+X', '20 ON ERROR GOTO 100', '30 PRINT "a":Q=FNA(1):PRINT "b"', '40 END', H + 'RESUME NEXT'], None,
+     b'a\r\nh 5  30 \r\nb\r\n'),
+    ('def-fn:body-raises-is-an-error-of-the-calling-statement',
+     ['10 DEF FNA(X)=LOG(0)*X', '20 PRINT "a"', '30 PRINT "b":Q=FNA(1):PRINT "no"'], None, b'a\r\nb\r\nIllegal function call in 30' + E),
+    ('def-fn:resume-re-executes-the-calling-statement',
+     ['10 DEF FNC$(X)=MID$("abc",0)', '20 ON ERROR GOTO 100', '30 PRINT "a":Q$=FNC$(1):PRINT "b"', '40 END',
+      H + 'C%=C%+1:IF C%<2 THEN RESUME ELSE RESUME NEXT'], None, b'a\r\nh 5  30 \r\nh 5  30 \r\nb\r\n'),
+    ('def-fn:division-by-zero-in-body-trapped',
+     ['10 DEF FND(X)=1/0+X', '20 ON ERROR GOTO 100', '30 PRINT "a"', '40 Q=FND(1):PRINT "b"', '50 END', H + 'RESUME NEXT'], None,
+     b'a\r\nh 11  40 \r\nb\r\n'),
+    ('def-fn:overflow-converting-the-result',
+     ['10 DEF FNE%(X)=X*40000', '20 ON ERROR GOTO 100', '30 PRINT "a":Q=1+FNE%(1):PRINT "b"', '40 END', H + 'RESUME NEXT'], None,
+     b'a\r\nh 6  30 \r\nb\r\n'),
+    ('def-fn:body-raises-called-from-subroutine-and-handler',
+     ['10 DEF FNA(X)=SQR(-4)+X', '20 ON ERROR GOTO 100', '30 GOSUB 200:PRINT "back"', '40 END', '100 PRINT "h";ERR;ERL', '110 Q=FNA(2)',
+      '120 RESUME NEXT', '200 PRINT "s":Q=FNA(1):PRINT "t":RETURN'], None, b's\r\nh 5  200 \r\nIllegal function call in 110' + E),
     ('direct:erl-65535-resume-next', ['10 END', H + 'RESUME NEXT'], 'ON ERROR GOTO 100:PRINT "d1":ERROR 5:PRINT "d2"',
      b'd1\r\nh 5  65535 \r\nd2\r\n'),
     ('direct:resume-re-executes', ['10 END', H + 'C%=C%+1:IF C%<2 THEN RESUME ELSE RESUME NEXT'],
